@@ -118,6 +118,16 @@ impl fmt::Debug for Boom {
         panic!("Debug impl panics")
     }
 }
+/// a value whose Debug impl itself emits an event (message m<token>, INFO, target a) - a logging Debug impl
+struct Nest(u64);
+impl fmt::Debug for Nest {
+    fn fmt(&self, f: &mut fmt::Formatter<'_>) -> fmt::Result {
+        let meta = event_meta(3, "a");
+        let vals = vec![(0usize, Val::Display(Disp(format!("m{}", self.0))))];
+        with_values(&vals, meta, |vs| Event::dispatch(meta, vs));
+        f.write_str("nested-done")
+    }
+}
 struct Disp(String);
 impl fmt::Display for Disp {
     fn fmt(&self, f: &mut fmt::Formatter<'_>) -> fmt::Result {
@@ -150,6 +160,7 @@ enum Val {
     ErrSync(Box<dyn std::error::Error + Sync + 'static>),
     ErrSendSync(Box<dyn std::error::Error + Send + Sync + 'static>),
     Boom,
+    Nest(u64),
 }
 fn val_of(v: &Value) -> Val {
     let s = v["v"].as_str().unwrap_or("");
@@ -174,6 +185,7 @@ fn val_of(v: &Value) -> Val {
         "error_sync" => Val::ErrSync(Box::new(MyErr(s.to_string()))),
         "error_send_sync" => Val::ErrSendSync(Box::new(MyErr(s.to_string()))),
         "boom" => Val::Boom,
+        "nest" => Val::Nest(s.parse().unwrap()),
         t => panic!("value type {t}"),
     }
 }
@@ -184,6 +196,7 @@ fn with_values<R>(vals: &[(usize, Val)], meta: &'static Metadata<'static>, f: im
     let dbg: Vec<Option<field::DebugValue<&String>>> = vals.iter().map(|(_, v)| if let Val::Debug(s) = v { Some(field::debug(s)) } else { None }).collect();
     let dsp: Vec<Option<field::DisplayValue<&Disp>>> = vals.iter().map(|(_, v)| if let Val::Display(d) = v { Some(field::display(d)) } else { None }).collect();
     let boom = field::debug(Boom);
+    let nests: Vec<Option<field::DebugValue<Nest>>> = vals.iter().map(|(_, v)| if let Val::Nest(k) = v { Some(field::debug(Nest(*k))) } else { None }).collect();
     let bytes: Vec<Option<&[u8]>> = vals.iter().map(|(_, v)| if let Val::Bytes(b) = v { Some(b.as_slice()) } else { None }).collect();
     let errs: Vec<Option<&(dyn std::error::Error + 'static)>> = vals.iter().map(|(_, v)| if let Val::Err(e) = v { Some(&**e) } else { None }).collect();
     let errs_s: Vec<Option<&(dyn std::error::Error + Send + 'static)>> = vals.iter().map(|(_, v)| if let Val::ErrSend(e) = v { Some(&**e) } else { None }).collect();
@@ -207,6 +220,7 @@ fn with_values<R>(vals: &[(usize, Val)], meta: &'static Metadata<'static>, f: im
             Val::ErrSync(_) => errs_y[n].as_ref().unwrap(),
             Val::ErrSendSync(_) => errs_sy[n].as_ref().unwrap(),
             Val::Boom => &boom,
+            Val::Nest(_) => nests[n].as_ref().unwrap(),
         };
         items.push((&keys[*i], Some(r)));
     }
@@ -378,6 +392,12 @@ fn child() {
     };
     let spans: Arc<Mutex<HashMap<u64, Span>>> = Arc::new(Mutex::new(HashMap::new()));
     let mut ws: Workers<Ctx> = Workers::new(|| Ctx { default: None, entered: vec![] });
+    // `global`: the collector is the process's global default and no scoped default is ever set (the usual `init()` set-up):
+    // lookups take the dispatcher's fast path, which has no re-entrancy guard
+    let global = b["global"].as_bool().unwrap_or(false);
+    if global {
+        dispatch::set_global_default(d.clone()).expect("global default");
+    }
     for (n, step) in b["steps"].as_array().unwrap().iter().enumerate() {
         let mut o = step.clone();
         o["ev"] = json!("op");
@@ -397,7 +417,7 @@ fn child() {
                     let (dd, st, bar) = (&d, &step, &bar);
                     sc.spawn(move || {
                         VT.with(|v| v.set(100 + j));
-                        let _g = dispatch::set_default(dd);
+                        let _g = if global { None } else { Some(dispatch::set_default(dd)) };
                         let meta = event_meta(st["lvl"].as_u64().unwrap(), st["tgt"].as_str().unwrap());
                         bar.wait();
                         for i in 0..per {
@@ -414,7 +434,7 @@ fn child() {
             continue;
         }
         let r = ws.run(t, move |c| {
-            if c.default.is_none() {
+            if c.default.is_none() && !global {
                 c.default = Some(dispatch::set_default(&dd));
             }
             match op.as_str() {
